@@ -20,6 +20,7 @@ import (
 	"github.com/robfig/soy/data"
 	"github.com/robfig/soy/soyhtml"
 
+	"verif/c16"
 	"verif/core"
 )
 
@@ -200,9 +201,10 @@ func PrecedingCommands(ctx *core.Ctx, t *Tables, vals []Value, off, y [][]string
 						}
 						continue
 					}
+					cs := &c16.Case{Files: files, Render: "a.m", ChainText: row.Text}
 					for _, vi := range sample {
 						v := &vals[vi]
-						res := comp.Render("a.m", data.Map{"x": v.X}, nil)
+						res := renderGuarded(cs, comp, v.X, data.Map{"x": v.X}, nil)
 						ln++
 						if res.Err != nil {
 							continue
